@@ -31,6 +31,7 @@ def run(ctx):
     check_resize_keep(ctx, prog)
     check_search_restart(ctx, prog)
     check_index_of_siblings(ctx, prog)
+    check_model(ctx, prog)
     check_trim(ctx, prog)
     import nullret
     nullret.check(ctx, prog, 'C03', ('String.cpp',))
@@ -366,6 +367,99 @@ def check_resize_keep(ctx, prog):
 
 
 # ------------------------------------------------------------------ C03.search
+
+def check_model(ctx, prog):
+    """C03.model: read-only String operations agree with the byte-string model.  Each member of a table is interpreted
+    (scansim: the receiver's text behind str(), String arguments and String results as bounds-checked buffers, the members it
+    calls interpreted from their bodies, libc string functions modelled) on every text over a small alphabet up to 4
+    characters and every argument combination in range; the result must be what the model gives, and no access may leave
+    the strings involved."""
+    import scansim, itertools
+
+    def strs(alpha, maxlen):
+        for L in range(0, maxlen + 1):
+            for t in itertools.product(alpha, repeat=L):
+                yield ''.join(t)
+
+    def ucmp(a, b):
+        x, y = a.encode('latin-1'), b.encode('latin-1')
+        return (x > y) - (x < y)
+
+    def sign(v):
+        return (v > 0) - (v < 0)
+    WS = ' \t\r\n'
+    # name, signature, generator of (args, string-args) per text, reference(text, args, sargs), how to compare
+    table = [
+        ('substring', '(int,int)const', lambda t: [({0: i, 1: j}, {}) for i in range(len(t) + 1) for j in range(i, len(t) + 1)], lambda t, a, s_: t[a[0]:a[1]], None),
+        ('substring', '(int)const', lambda t: [({0: i}, {}) for i in range(len(t) + 1)], lambda t, a, s_: t[a[0]:], None),
+        ('substr', '(int,int)const', lambda t: [({0: i, 1: n}, {}) for i in range(-len(t), len(t) + 2) for n in range(0, len(t) + 2)],
+         lambda t, a, s_: (lambda i: t[min(i, len(t)):min(min(i, len(t)) + a[1], len(t))])(a[0] + len(t) if a[0] < 0 else a[0]), None),
+        ('indexOf', '(char,int)const', lambda t: [({0: ord(c), 1: i0}, {}) for c in 'ab' for i0 in range(len(t) + 1)], lambda t, a, s_: t.find(chr(a[0]), a[1]), None),
+        ('lastIndexOf', '(char)const', lambda t: [({0: ord(c)}, {}) for c in 'ab'], lambda t, a, s_: t.rfind(chr(a[0])), None),
+        ('startsWith', '(const asl::String &)const', lambda t: [({}, {0: p_}) for p_ in strs('ab', 3) if p_], lambda t, a, s_: int(t.startswith(s_[0])), bool),
+        ('endsWith', '(const asl::String &)const', lambda t: [({}, {0: p_}) for p_ in strs('ab', 3) if p_], lambda t, a, s_: int(t.endswith(s_[0])), bool),
+        ('contains', '(const asl::String &)const', lambda t: [({}, {0: p_}) for p_ in strs('ab', 3) if p_], lambda t, a, s_: int(s_[0] in t), bool),
+        ('compare', '(const asl::String &)const', lambda t: [({}, {0: p_}) for p_ in strs('ab', 3)], lambda t, a, s_: ucmp(t, s_[0]), sign),
+        ('operator==', '(const asl::String &)const', lambda t: [({}, {0: p_}) for p_ in strs('ab', 3)], lambda t, a, s_: int(t == s_[0]), bool),
+        ('operator<', '(const asl::String &)const', lambda t: [({}, {0: p_}) for p_ in strs('ab', 3)], lambda t, a, s_: int(ucmp(t, s_[0]) < 0), bool),
+        ('operator+', '(const asl::String &)const', lambda t: [({}, {0: p_}) for p_ in strs('ab', 2)], lambda t, a, s_: t + s_[0], None),
+        ('trimmed', '()const', lambda t: [({}, {})], lambda t, a, s_: t.strip(WS), None),
+    ]
+    n = 0
+    for name, sig, gen, ref, norm in table:
+        fs = [g_ for g_ in prog.fn('asl::String::' + name, sig) if g_.get('body')]
+        if not fs:
+            continue
+        f = fs[0]
+        alpha = (' a\t\n' if name == 'trimmed' else 'ab')
+        role = '%s%s:agrees with the byte-string model' % (name, sig)
+        bad = und = None
+        runs = 0
+        for text in strs(alpha, 4 if name != 'trimmed' else 5):
+            for args, sargs in gen(text):
+                bufs = {'T': [ord(c) for c in text] + [0]}
+                r = scansim.Run(prog, f, bufs, call_ptrs={'str': ('P', 'T', 0)}, methods={'*': 'interp'}, mems={'_len': len(text)}, objects=True)
+                for k, v in args.items():
+                    r.vars[f['params'][k]['id']] = v
+                for k, v in sargs.items():
+                    pid = f['params'][k]['id']
+                    bufs[('O', pid)] = [ord(c) for c in v] + [0]
+                    r.objlen[pid] = len(v)
+                    r.strobjs.add(pid)
+                runs += 1
+                call_txt = '"%s".%s(%s)' % (text.replace('\t', '\\t').replace('\n', '\\n'), name, ', '.join([str(v) for k, v in sorted(args.items())] + ['"%s"' % v for k, v in sorted(sargs.items())]))
+                try:
+                    ret = r.run()
+                except scansim.OOB as o:
+                    bad = '%s: %s' % (call_txt, o)
+                    break
+                except (scansim.Unsupported, TypeError, KeyError, IndexError, ValueError) as u:
+                    und = '%s: %s' % (call_txt, u)
+                    break
+                if isinstance(ret, tuple) and ret[0] == 'P' and isinstance(ret[1], tuple) and ret[1][0] == 'O':
+                    out = bufs[ret[1]]
+                    got = ''.join(chr(x & 255) for x in out[:out.index(0)]) if 0 in out else None
+                elif ret == ('THIS',):
+                    got = text
+                else:
+                    got = ret
+                want = ref(text, args, sargs)
+                if norm is not None and isinstance(got, int):
+                    got, want = norm(got), norm(want)
+                if got != want:
+                    bad = '%s is %r, the model gives %r' % (call_txt, got, want)
+                    break
+            if bad or und:
+                break
+        ctx.evaluations += runs
+        if und:
+            ctx.info.setdefault('string_model_not_interpreted', []).append(und[:160])
+            continue
+        n += 1
+        ctx.analysed(f)
+        ctx.check(bad is None, 'C03.model', f['pq'], role, fwhere(f), 'interpreted on %d (text, argument) combinations' % runs, 'String::%s' % bad)
+    ctx.floor('C03.model', n, 6)
+
 
 def check_index_of_siblings(ctx, prog):
     """C03.search: the String-pattern overloads of indexOf agree with the byte-string model (and hence with their const char*
